@@ -57,6 +57,7 @@ type MapObj struct {
 	vals  []Val
 	epoch uint32
 	kt    types.Type
+	vt    types.Type // element type the map was made with (nil: unknown)
 }
 
 type MapIter struct {
